@@ -115,6 +115,12 @@ func init() {
 		ls, lp := StrLen(s), StrLen(p)
 		return VBool{And(SLe(lp, ls), Eq(StrSub(s, C64(0), lp), p))}, pc
 	})
+	regExtern("strings.TrimPrefix", "TrimPrefix(s,p): s[len(p):] when s has prefix p, else s", func(ex *Exec, fr *Frame, st *State, pc *Term, fn *ssa.Function, args []Value, pos token.Pos) (Value, *Term) {
+		s, p := args[0].(VStr).T, args[1].(VStr).T
+		ls, lp := StrLen(s), StrLen(p)
+		has := And(SLe(lp, ls), Eq(StrSub(s, C64(0), lp), p))
+		return VStr{Ite(has, StrSub(s, lp, ls), s)}, pc
+	})
 	regExtern("strings.Split", "Split(s,sep), sep non-empty: at least one part; parts[0] is a prefix of s; a single part equals s", func(ex *Exec, fr *Frame, st *State, pc *Term, fn *ssa.Function, args []Value, pos token.Pos) (Value, *Term) {
 		s := args[0].(VStr).T
 		sep := args[1].(VStr).T
